@@ -1157,7 +1157,10 @@ impl TcpConnecter {
           }
         } => {
           // If the select is aborted by a system event, we stop trying more IPs.
-          return Err(ZmqError::Internal("Connect aborted by system event.".into()));
+          // The wording matters: the connecter's life loop stops on "shutdown by" errors. Anything
+          // else counts as one more failed attempt, and since the event has been consumed here the
+          // connecter would go on dialling for ever after close()/term().
+          return Err(ZmqError::Internal("Connect aborted: shutdown by system event.".into()));
         }
         connect_outcome_result = connect_future => {
           match connect_outcome_result {
